@@ -391,7 +391,7 @@ def check_run(ctx, case, max_runs):
 def run(ctx):
     nf = ctx.n(9000, 150000)
     for i in range(nf):
-        if ctx.expired():
+        if ctx.expired(0.45):
             break
         c = gen_call(ctx.rnd, integer=(i % 2 == 0))
         if c is not None:
